@@ -442,7 +442,7 @@ func one(c *fw.Ctx, f fn, h []int, args []string, variant int, recoverOn bool) {
 	if got.Key() != want.Key() {
 		got2, _ := runIt(true)
 		want2, _ := runIt(false)
-		if got2.Key() != got.Key() || want2.Key() != want.Key() {
+		if got2.Key() == want2.Key() { // a second pair of runs agrees (texts of a disagreement may vary)
 			c.Infra("unstable outcome for %s", key)
 			return
 		}
